@@ -30,7 +30,7 @@ class BuiltinMixin:
         from .interp_expr import base_hint
 
         h = base_hint(x.hint)
-        if h == "list":
+        if h == "list" or self.is_listlike(x):
             return TV("int", self.hread("llen", (self.as_addr(x),)))
         if h in ("dict", "set"):
             return TV("int", self.hread("dklen", (self.as_addr(x),)))
